@@ -1,3 +1,5 @@
+//go:build test && verif
+
 package suites
 
 // C16: client/reports.go staticReadEnergyFile and client/client.go
